@@ -92,7 +92,7 @@ def observe(m, exact=False):
     through its text form)."""
     cfg = m.solver.configuration
     g = canon.glpk_dump(m)
-    return {"content": richgen.rich_dump(m), "xref": canon.xref_problems(m), "glpk": g if exact else c10_digits15(g), "tolerance": m.tolerance,
+    return {"content": richgen.rich_dump(m, model_meta=True), "xref": canon.xref_problems(m), "glpk": g if exact else c10_digits15(g), "tolerance": m.tolerance,
             "solver": [type(m.solver).__module__] + [getattr(cfg.tolerances, t) for t in ("feasibility", "integrality")] +
                       [cfg.timeout, str(cfg.presolve), str(cfg.verbosity)],
             "groups_members": {g.id: sorted(f"{type(x).__name__}:{x.id}" for x in g.members) for g in m.groups}}
@@ -264,6 +264,32 @@ def apply_edit(ex, op):
         return type(e).__name__
 
 
+def apply_cross(this, other, op):
+    """An edit of `this` with an object of `other` as argument."""
+    from cobra import Metabolite
+    try:
+        with warnings.catch_warnings():
+            warnings.simplefilter("ignore")
+            if not len(this.reactions) or not len(other.reactions):
+                return "skipped"
+            r = this.reactions[op["pick"] % len(this.reactions)]
+            if op["what"] == "add_foreign_met":
+                if op["fresh"] not in other.metabolites:
+                    other.add_metabolites([Metabolite(op["fresh"], compartment="c")])
+                r.add_metabolites({other.metabolites.get_by_id(op["fresh"]): 1.0})
+            elif op["what"] == "iadd_foreign_rxn":
+                r += other.reactions[op["pick"] % len(other.reactions)]
+            else:
+                src = other.reactions[op["pick"] % len(other.reactions)]
+                new = src.copy()
+                new.id = "copied_" + src.id
+                if new.id not in this.reactions:
+                    this.add_reactions([new])
+        return None
+    except Exception as e:
+        return type(e).__name__
+
+
 def make_exec(model):
     ex = coreops.Exec.__new__(coreops.Exec)
     ex.model = model
@@ -338,6 +364,23 @@ def check_model_case(case):
             ex_edit, other = (ex_c, orig) if side == "copy" else (ex_o, cp)
             if op["op"] == "exit" and ex_edit.depth == 0:
                 continue
+            if op["op"] == "cross":
+                err = apply_cross(ex_edit.model, other, op)
+                if err == "skipped":
+                    continue
+                # the foreign argument may itself have been prepared by an edit of the other model (a new metabolite): what must hold is that the two
+                # models share nothing afterwards and that later edits stay on their side
+                sh = shared_mutable(orig, cp)
+                if sh:
+                    fails.append(f"{op} on the {side}: {len(sh)} mutable objects are reachable from both models afterwards, e.g. {sh[:3]}")
+                    break
+                for mm, nm in ((orig, "original"), (cp, "copy")):
+                    pr = canon.xref_problems(mm)
+                    if pr:
+                        fails.append(f"{op} on the {side}: cross-references of the {nm} are inconsistent afterwards: {pr[:2]}")
+                if fails:
+                    break
+                continue
             before = observe(other)
             err = apply_edit(ex_edit, op)
             after = observe(other)
@@ -357,7 +400,7 @@ def check_model_case(case):
 
 
 def obj_state(m):
-    return {"content": richgen.rich_dump(m), "xref": canon.xref_problems(m), "glpk": canon.glpk_dump(m)}
+    return {"content": richgen.rich_dump(m, model_meta=True), "xref": canon.xref_problems(m), "glpk": canon.glpk_dump(m)}
 
 
 def check_object_case(case):
@@ -468,6 +511,12 @@ def gen_model_case(rng):
         ops = []
         sides = rng.choice([["copy"], ["orig"], ["copy", "orig"]])
         for _ in range(rng.randint(3, 10)):
+            if rng.random() < 0.15:
+                # an edit of one model whose argument is an object of the other model (a metabolite that exists only there, a reaction of the other
+                # model as operand, a copy of one of its reactions): documented to copy what it takes
+                ops.append([rng.choice(["copy", "orig"]), {"op": "cross", "what": rng.choice(["add_foreign_met", "add_foreign_met", "iadd_foreign_rxn", "add_copy_of_foreign_rxn"]),
+                                                          "pick": rng.randint(0, 50), "fresh": rng.choice(["Xc12", "Yc12"])}])
+                continue
             op = gen_edit(rng, ex)
             if op["op"] == "exit" and ex.depth == 0 and not pre:
                 continue
